@@ -81,6 +81,12 @@ def _variations(tier, only):
 def run(tier, only=None):
     results, info = kcollect.run("C08", tier, only)
     results += _variations(tier, only)
+    # two instances of one operator that differ in one parameter, in one graph: no key may carry two different tasks (structural by-product, shared with C09)
+    from families import f09
+    from .. import pfam, prun
+
+    gr, _ = pfam.run(f09.programs(tier), prun.check_graphs, only)
+    results += [r for r in gr if r.status != VIOLATION or r.signature.endswith("ambiguous-key")]
     if not only or "hashseed" in only:
         from .. import hashseed
 
